@@ -725,6 +725,11 @@ class LoopMon:
         self.spurious = False          # an aborted batch held an ack the monitor cannot attribute (see feed)
         self.nontrivial = set()
         # C11 order (MQTT 3.1.1, QoS1 acknowledged in order, outside K29/K30): original send order
+        # C10 on the loop: what the broker wrote (FIFO of [connection, packet]) vs the Incoming notifications
+        self.wq = []
+        self.conn_id = 0
+        self.owed_acks = []            # acks owed for inbound QoS1/2 publishes of this connection, in order
+        self.alive = False
         self.first = []                # tags in the order they were first put on the wire
         self.order_ok = True           # still inside the class: QoS<=1 only, no SUB/UNSUB, acks in order, session always resumed
         self.conn_last = -1            # original position of the last publish written on this connection
@@ -764,8 +769,11 @@ class LoopMon:
         they acknowledge a publish written (collision resolved) earlier in that same batch, which
         the monitor only sees in this poll's WIRE"""
         batch, self.netq = self.netq[:9], self.netq[9:]
+        unread = [w for w in self.wq if w[0] == self.conn_id and not w[2]]
         deferred = []
-        for (kind, i) in batch:
+        for k, (kind, i) in enumerate(batch):
+            if k < len(unread):
+                unread[k][2] = True          # handed to the state machine (surfaced even if it is then refused)
             if not self.apply(kind, i):
                 if stop_on_refusal:
                     self.netq = []
@@ -786,6 +794,15 @@ class LoopMon:
                 f = part.split()
                 if f:
                     self.netq.append((f[0], int(f[1]) if len(f) > 1 else 0))
+                    if self.alive:
+                        self.wq.append([self.conn_id, ":".join(f), False])      # [connection, packet, read by the client]
+                        if f[0] == "PUB" and f[1] in ("1", "2"):
+                            self.owed_acks.append("%s:%s" % ("PUBACK" if f[1] == "1" else "PUBREC", f[2]))
+                        if len(self.wq) >= 10:
+                            self.nontrivial.add("burst-10-or-more")
+            return
+        if t[0] == "DROP":
+            self.alive = False
             return
         if t[0] == "FINISH":
             held = ans[6:-1].split() if ans.startswith("HELD [") else []
@@ -809,6 +826,8 @@ class LoopMon:
         kind, arg, wire = m.group(1), m.group(2), m.group(3).split()
         deferred = []
         if kind == "ERROR":
+            self.alive = False
+            self.owed_acks = []
             if self.netq and arg == "ConnectionAborted":
                 # the connection ended right after this batch: the client processed all of it, its
                 # replies were never flushed.  An ack the monitor cannot attribute may have hit a
@@ -820,13 +839,35 @@ class LoopMon:
                     self.spurious = True
             elif self.netq:
                 self.run_batch(stop_on_refusal=True)
+            self.wq = [w for w in self.wq if w[2]]       # what this connection never read is gone with it
             self.netq = []
             self.gen += 1
             self.failures += 1
             self.nontrivial.add("failure-with-unacked" if self.cur else "failure")
             return
+        if kind == "EVENT" and arg.startswith("I(") and not arg.startswith("I(CONNACK:"):
+            x = arg[2:-1]
+            if self.netq and (x.split(":")[0], int(x.split(":")[1]) if len(x.split(":")) > 1 and x.split(":")[1].isdigit() else 0) == self.netq[0] \
+                    and not any(w[2] for w in self.wq):
+                deferred = self.run_batch(stop_on_refusal=False)      # this poll ran the read batch
+            if self.wq and self.wq[0][1] == x and self.wq[0][2]:
+                self.wq.pop(0)
+            else:
+                self.v("C10", "the client surfaced %s but the next packet the broker wrote is %s: a packet was skipped, repeated or reordered" % (
+                    x, self.wq[0][1] if self.wq else "nothing"))
+        if kind == "IDLE" and self.alive:
+            left = [w[1] for w in self.wq if w[0] == self.conn_id]
+            if left:
+                self.v("C10", "the loop is idle but %d packets the broker wrote were never surfaced, first %s" % (len(left), left[0]))
+                self.wq = []
+            if self.owed_acks:
+                self.v("C10", "the loop is idle but inbound publishes were not answered: missing %s" % self.owed_acks[:3])
+                self.owed_acks = []
         if kind == "EVENT" and arg.startswith("I(CONNACK:"):
             self.cur, self.netq = {}, []
+            self.conn_id += 1
+            self.alive = True
+            self.owed_acks = []
             self.conn_last = -1
             if arg[10] != "1":
                 self.order_ok = False      # K29: the session was not resumed
@@ -840,10 +881,7 @@ class LoopMon:
                     if x[0] in "UR":
                         x[0] = "X"
                 self.nontrivial.add("no-session")
-        elif kind == "EVENT" and arg.startswith("I(") and self.netq:
-            f = arg[2:-1].split(":")
-            if (f[0], int(f[1]) if len(f) > 1 and f[1].isdigit() else 0) == self.netq[0]:
-                deferred = self.run_batch(stop_on_refusal=False)      # this poll ran the read batch
+
         if kind == "EVENT" and arg.startswith("O(AWAITACK:"):
             self.nontrivial.add("loop-collision")
         for w in wire:
@@ -879,6 +917,11 @@ class LoopMon:
                 self.conn_last = max(self.conn_last, pos)
                 if len(self.cur) > self.max:
                     self.v("C07", "%d unacknowledged on the wire > limit %d" % (len(self.cur), self.max))
+            elif f[0] in ("PUBACK", "PUBREC"):
+                if self.owed_acks and self.owed_acks[0] == w:
+                    self.owed_acks.pop(0)
+                else:
+                    self.v("C10", "%s written, but the next inbound publish waiting for its answer is %s" % (w, self.owed_acks[0] if self.owed_acks else "none"))
             elif f[0] == "PUBREL":
                 i = int(f[1])
                 for tg, x in self.st.items():
@@ -886,6 +929,34 @@ class LoopMon:
                         self.cur[i] = tg
             while deferred and self.apply(*deferred[0]):
                 deferred.pop(0)
+
+
+def burst_lines():
+    return ["BURST %s %d %s" % (v, n, mix) for v in ("4", "5") for n in (1, 8, 9, 10, 11, 19, 20, 21, 25, 40) for mix in ("1", "2", "m")]
+
+
+def burst_monitor(line, ans):
+    """C10 on a read burst (v4 and v5 event loop): every packet the broker wrote in one go is
+    surfaced once, in wire order, and every QoS1/2 publish is answered with its PUBACK/PUBREC"""
+    t = line.split()
+    n, mix = int(t[2]), t[3]
+    m = re.match(r"^BURST I\[(.*?)\] W\[(.*?)\] END (.*)$", ans)
+    if not m:
+        return ["unparsable answer %r" % ans]
+    qs = [(1 if mix == "1" else 2 if mix == "2" else k % 3) for k in range(1, n + 1)]
+    want_i = ["PUB:%d:%d:%d" % (q, k if q else 0, k) for k, q in zip(range(1, n + 1), qs)]
+    want_w = ["CONNECT"] + ["%s:%d" % ("PUBACK" if q == 1 else "PUBREC", k) for k, q in zip(range(1, n + 1), qs) if q]
+    v = []
+    got_i, got_w = m.group(1).split(), m.group(2).split()
+    if got_i != want_i:
+        k = next((i for i in range(min(len(got_i), len(want_i))) if got_i[i] != want_i[i]), min(len(got_i), len(want_i)))
+        v.append("%s: the broker wrote %d packets at once; the client surfaced %d; first difference at position %d: surfaced %s, written %s" % (
+            line, n, len(got_i), k + 1, got_i[k] if k < len(got_i) else "nothing", want_i[k] if k < len(want_i) else "nothing"))
+    if got_w != want_w:
+        v.append("%s: acknowledgements on the wire %s, expected %s" % (line, got_w[:12], want_w[:12]))
+    if m.group(3) != "IDLE":
+        v.append("%s: the loop ended with %s" % (line, m.group(3)))
+    return v
 
 
 def gen_loop_history(rng, model, mx, style="mixed"):
@@ -902,6 +973,7 @@ def gen_loop_history(rng, model, mx, style="mixed"):
     do("LNEW %d 0" % mx)
     do("ACCEPT 1"); do("POLL")
     unacked, rel, tag = {}, [], 0       # broker view of this connection
+    btag = [0]                          # inbound publishes carry unique payload tags
 
     def note(a):
         m = LOOP_WIRE.match(a)
@@ -956,7 +1028,26 @@ def gen_loop_history(rng, model, mx, style="mixed"):
                         do("ACCEPT 1"); note(do("POLL"))
                 drain()
             continue
-        if r < 45:
+        if style == "burst" or r >= 97:
+            # many broker packets readable in ONE poll: the 10-packet read batch and beyond
+            n = rng.choice([9, 10, 11, 20, 25])
+            pk = []
+            for i in list(unacked)[:rng.below(3)]:
+                if unacked[i] == "1":
+                    pk.append("PUBACK %d" % i); unacked.pop(i)
+            mix = rng.below(4)
+            while len(pk) < n:
+                btag[0] += 1
+                q = [1, 2, rng.below(3), 1 + rng.below(2)][mix]
+                pk.append("PUB %d %d %d %d" % (q, (btag[0] % 60000) + 1 if q else 0, btag[0] % 50, 100000 + btag[0]))
+            do("NET " + " ; ".join(pk))
+            if rng.chance(1, 8):
+                do("DROP")
+            a = drain()
+            if style == "burst" and rng.chance(1, 2):
+                tag += 1
+                do("SEND PUB 1 0 %d %d" % (tag % 50, tag)); a = drain()
+        elif r < 45:
             for _ in range(1 + rng.below(3)):
                 tag += 1
                 kind = rng.below(10)
@@ -1027,7 +1118,7 @@ def loop_run(ctx, mexe):
     hs = []
     for k in range(n):
         mx = [1, 1, 2, 2, 3, 5][rng.below(6)]
-        style = "order" if k % 3 == 2 else "mixed"
+        style = "order" if k % 3 == 2 else ("burst" if k % 6 == 1 else "mixed")
         if style == "order":
             mx = [2, 3, 3, 4][rng.below(4)]
         ops, mans = gen_loop_history(rng, model, mx, style)
@@ -1068,6 +1159,16 @@ def loop_run(ctx, mexe):
                 res["viol"][p].append({"history": ops, "text": txt})
         if len(res["samples"]) < 2 and len(ops) > 25:
             res["samples"].append({"ops": ops[:40], "impl_answers": a[:40]})
+    # read bursts through the v4 and the v5 event loop (no model for the v5 loop: monitor only)
+    bl = burst_lines()
+    rcb, bans, _ = lib.run_on_text(lexe, "\n".join(bl) + "\n")
+    res["bursts"] = len(bl)
+    if rcb != 0 or len(bans) != len(bl):
+        res["driver_failure"] = "clientloop failed on the BURST scenarios (exit %d, %d/%d lines)" % (rcb, len(bans), len(bl))
+        return res
+    for l, a in zip(bl, bans):
+        for txt in burst_monitor(l, a):
+            res["viol"]["C10"].append({"history": [l], "text": txt})
     return res
 
 
@@ -1400,14 +1501,17 @@ def known_match(mexe, entry, history):
     return _KCACHE.get(key, False)
 
 
-def shrink(iexe, history, prop, sig):
+def shrink(iexe, history, prop, sig, mexe=None, kentries=()):
     """delta-debugging on the ops of one history: keep removing chunks while the implementation
-    still fails the same property monitor."""
+    still fails the same property monitor — and the smaller history is still outside every
+    known-finding class (otherwise shrinking would walk into a known finding)."""
     def fails(h):
         rc, impl, _ = lib.run_on_text(iexe, "\n".join(h) + "\n")
         if rc != 0 or len(impl) != len(h):
             return False
-        return any(p == prop for (p, _) in monitor_history(h, impl).viol)
+        if not any(p == prop for (p, _) in monitor_history(h, impl).viol):
+            return False
+        return not any(known_match(mexe, k, h) for k in kentries)
     head, ops = history[0], history[1:]
     n = 2
     while len(ops) >= 2:
@@ -1601,6 +1705,7 @@ def run(ctx):
     ctx.cov["loop_trigger_histogram"] = lp.get("nontrivial", {})
     ctx.cov["loop_histories_cut_at_select_ambiguity"] = lp.get("truncated", 0)
     ctx.cov["loop_samples"] = lp.get("samples", [])[:1]
+    ctx.cov["loop_read_burst_scenarios_v4_v5"] = lp.get("bursts", 0)
     ctx.cov["loop_rule"] = ("end to end: the real rumqttc::EventLoop (v4) over the in-memory transport hook under paused tokio time with a scripted broker "
                             "(harness bin clientloop) against Client/Loop.v (ocaml driver, loop mode): model-guided random histories (user sends, polls, broker acks in and out of order, "
                             "unsolicited acks, drops incl. inside a read batch, reconnects with/without session, second failure before pending is drained), max_inflight in {1,2,3,5}; "
@@ -1633,17 +1738,17 @@ def run(ctx):
         if reported:
             continue
         ctx.log("shrinking a %d-op history: %s" % (len(h), v["text"][:100]))
-        small = shrink(iexe, h, prop, v["text"])
+        small = shrink(iexe, h, prop, v["text"], mexe, kentries)
         ctx.log("shrunk to %d ops" % len(small))
         rc, impl, _ = lib.run_on_text(iexe, "\n".join(small) + "\n")
         rc2, model, _ = lib.run_on_text(mexe, "\n".join(small) + "\n")
         mon = monitor_history(small, impl)
         txt = next((t for (p, t) in mon.viol if p == prop), v["text"])
-        kn = [k for k in kentries if known_match(mexe, k, small)]
-        if kn:
-            for k in kn:
-                ctx.known_finding(k["line"])
-            continue
+        if any(known_match(mexe, k, small) for k in kentries):
+            small = h          # cannot happen (the shrinker stays outside the known classes); report the original
+            rc, impl, _ = lib.run_on_text(iexe, "\n".join(small) + "\n")
+            rc2, model, _ = lib.run_on_text(mexe, "\n".join(small) + "\n")
+            txt = v["text"]
         content = "# %s replay (client state machine): one op per line; run: ./check %s --replay <this file>\n# %s\n" % (prop, prop, txt)
         content += "".join("# %-28s impl: %-60s model: %s\n" % (o, a, b) for o, a, b in zip(small, impl, model))
         content += "\n".join(small) + "\n"
@@ -1690,6 +1795,19 @@ def replay(ctx, path):
         return replay_c18(ctx, path)
     mexe, iexe, out = drivers()
     lines = [l.strip() for l in open(path).read().splitlines() if l.strip() and not l.startswith("#")]
+    if lines and lines[0].startswith("BURST"):
+        lexe, _ = lib.cargo_driver("clientloop")
+        if os.environ.get("VERIF_CLIENTLOOP_IMPL"):
+            lexe = os.environ["VERIF_CLIENTLOOP_IMPL"]
+        _, impl, _ = lib.run_on_text(lexe, "\n".join(lines) + "\n")
+        rc = 0
+        for l, a in zip(lines, impl):
+            print("%s\n   impl: %s" % (l, a[:400]))
+            for x in burst_monitor(l, a):
+                print("   monitor C10: " + x); rc = 1
+        if rc:
+            print("VIOLATION property=%s replay=%s" % (ctx.prop, path))
+        return rc
     if lines and lines[0].startswith("LNEW"):
         lexe, _ = lib.cargo_driver("clientloop")
         if os.environ.get("VERIF_CLIENTLOOP_IMPL"):
